@@ -108,6 +108,9 @@ class Graph:
         self._bound: dict[str, Any] = {}
         self._selected: tuple[str, ...] | None = None
         self._entrypoints: tuple[str, ...] | None = None
+        # The collection is walked several times (name table, edges, validation):
+        # an iterator or generator would be exhausted after the first pass
+        nodes = list(nodes)
         self._nodes = self._build_nodes_dict(nodes)
         self._explicit_edges = self._normalize_edges(edges) if edges is not None else None
         self._nx_graph = self._build_graph(nodes)
